@@ -311,7 +311,7 @@ func (t *Template) parseTemplate(cacheAfterParsing bool) (next Node) {
 
 	for t.peek().typ != itemEOF {
 		switch n := t.textOrAction(); n.Type() {
-		case nodeEnd, nodeElse, nodeContent:
+		case nodeEnd, nodeElse, nodeContent, nodeCatch:
 			t.errorf("unexpected %s", n)
 		default:
 			t.Root.append(n)
@@ -512,6 +512,12 @@ func (t *Template) itemList(terminatedBy ...NodeType) (list *ListNode, next Node
 			if n.Type() == terminatorType {
 				return list, n
 			}
+		}
+		switch n.Type() {
+		case nodeEnd, nodeElse, nodeContent, nodeCatch:
+			// a clause of some other statement ({{else}} in a block, {{content}} in a range, {{catch}} outside
+			// try, ...) must not end up in the tree as if it were a statement
+			t.errorf("unexpected %s", n)
 		}
 		list.append(n)
 	}
